@@ -447,6 +447,11 @@ func c11(r *core.Report) {
 	r.Rule("C11-MATCH", "mbapp matches a reply to the waiting ask by (group id, responder address) and always unregisters it", 4)
 	c11match(r)
 
+	// ---- C11-ATTRIBUTION (shared with C10-KEY): mbapp carries asks in fragments; the
+	// request a handler sees is attributed to, and assembled per, the packet's source.
+	r.Rule("C11-ATTRIBUTION", "mbapp assembles and attributes ask requests/replies per packet source and group id", 8)
+	ruleReassemblyKeyMbapp(r, "C11-ATTRIBUTION")
+
 	// ---- C11-CTX
 	r.Rule("C11-CTX", "blocking dependency calls on the Ask paths are bound to the caller's context", 6)
 	ruleCtxExternal(r, "C11-CTX", ctxMethods(p, "Ask"))
